@@ -70,7 +70,7 @@ class C05(Prop):
     id = "C05"
     parallel = False   # engine is timing-sensitive (real Quinn loopback / OS threads parked at hooks): one harness process at a time
     modules = ["H3.Props.C05"]
-    engines = ["cell", "cellmv", "flt5"]
+    engines = ["cell", "cellmv", "flt5", "hnd5"]
     design_ref = "DESIGN.md section 7, C05; Appendix B.2"
     level_text = ("Lean theorems over a small-step model of the connection error cell (OnceLock cell, AtomicWaker, executor "
                   "notification, driver pc/handled/close calls, n stream handles): for every number of handles, every error "
@@ -310,14 +310,20 @@ class C05(Prop):
         L += ["flt5 " + l[len("flt "):] for l in faults.cases(big, rng)]
         # ... and the application dropping the driver before / between / after the calls that meet the error (R-05)
         L += ["flt5 " + l[len("flt "):] for l in faults.drop_cases(big, rng)]
+        # whole connections in which a REAL request handle detects the connection error (a frame error / QPACK failure on
+        # its request stream, a pending read meeting the transport's error), the driver's, send_request's and the other
+        # handles' calls in every order (engine hnd5: tools/props/handles.py, lean/H3/Drv/Hnd.lean)
+        from props import handles
+        L += handles.cases(big, rng)
         return L
 
     def project_all(self, lines, impls):
-        from props import faults
+        from props import faults, handles
         res = list(impls)
-        idx = [i for i, l in enumerate(lines) if l.startswith("flt")]
-        for i, p in zip(idx, faults.project_all([lines[i] for i in idx], [impls[i] for i in idx])):
-            res[i] = p
+        for pre, mod in (("flt", faults), ("hnd5 ", handles)):
+            idx = [i for i, l in enumerate(lines) if l.startswith(pre)]
+            for i, p in zip(idx, mod.project_all([lines[i] for i in idx], [impls[i] for i in idx])):
+                res[i] = p
         return res
 
     # ---------------------------------------------------------------- statistics
@@ -327,6 +333,9 @@ class C05(Prop):
         if w[0].startswith("flt"):
             from props import faults
             return faults.klass(line, impl)
+        if w[0] == "hnd5":
+            from props import handles
+            return handles.klass(line, impl)
         n = sum(1 for x in w if x.startswith("S") and "=" in x)
         toks = impl.split(" | ")[0].split()
         f = dict(t.split("=", 1) for t in toks if "=" in t)
@@ -359,9 +368,15 @@ class C05(Prop):
         if line.startswith("flt"):
             from props import faults
             return faults.trivial(line, impl)
+        if line.startswith("hnd5 "):
+            from props import handles
+            return handles.trivial(line, impl)
         return not impl.startswith("cell=") or impl.startswith("cell=- ")
 
     def shrink_candidates(self, line):
+        if line.startswith("hnd5 "):
+            from props import handles
+            return handles.shrink_candidates(line)
         if line.startswith("flt"):
             w = line.split()
             return [" ".join(w[:3] + w[3:3 + i] + w[4 + i:]) for i in range(len(w) - 3) if len(w) > 4]
